@@ -589,6 +589,26 @@ impl Real {
                 set_slot(&mut self.usks, j, Some(v));
                 if changed { "ok forged".into() } else { "ok unchanged".into() }
             }
+            ["bump_ids", ms, n] => {
+                // raise the identifier counter of the structure (through the wire form: the counter is stored), so that
+                // later attributes get large identifiers and rights use multi-byte LEB128 encodings
+                let (Some(i), Ok(n)) = (handle('M', ms), n.parse::<u64>()) else { return "bad-op".into() };
+                let Some(Some(m)) = self.msks.get(i) else { return "err NoSuchHandle".into() };
+                let bytes = m.serialize().unwrap().to_vec();
+                let w = crate::wire::WMsk::read(&bytes).expect("harness cannot parse MSK bytes");
+                let mut old = vec![];
+                w.structure.write(&mut old);
+                let mut st = w.structure.clone();
+                let cur = st.next_id.unwrap_or(0);
+                st.version = 1;
+                st.next_id = Some(cur.max(n));
+                let mut new = bytes[..bytes.len() - old.len()].to_vec();
+                st.write(&mut new);
+                match MasterSecretKey::deserialize(&new) {
+                    Ok(x) => { self.msks[i] = Some(x); format!("ok next={}", cur.max(n)) }
+                    Err(e) => err_line(&e),
+                }
+            }
             ["roundtrip", h] => {
                 if let Some(i) = handle('M', h) {
                     if let Some(Some(m)) = self.msks.get(i) {
